@@ -17,7 +17,7 @@ META = {
     'stubs': ['numba.jit = identity'],
     'outside': ['non-integer values whose isclose tolerance is not transitive', 'rasters larger than the bound'],
     'assumptions': ['cell values are integers (so that the implementation\'s isclose test is equality)'],
-    'budget_s': {'quick': 240, 'thorough': 1800},
+    'budget_s': {'quick': 300, 'thorough': 1800},
 }
 
 # the smallest known layout where three provisional labels meet at one cell (8-connectivity); 4 of its cells are made symbolic
